@@ -19,6 +19,7 @@ Decided (shared with C08/C09 through the functions below):
   R07.9  the limit objects the scheduler consults are complete copies of the declared ones (= C05 R05.7)
   R07.10 no calendar, limit or readiness answer comes from state that outlives the question (memo keys, attribute slots,
          class-/module-level containers; common.process_state_rule)
+  R07.13 a forward task is ready only on a path that examined every edge (no early `ready` before the loop over the edges)
 Not decided: equality with an independent reference scheduler — a relation between computed values that
 no static argument in reach can establish.
 """
@@ -405,6 +406,10 @@ def cursor_rules(ctx: Ctx, rule: str):
 
 
 def run_extra(ctx: Ctx):
+    # ---------------------------------------------------------------- R07.13 ready only after every edge was examined (= C04 R04.7 exit clause)
+    from .c04 import readiness_exit_rule
+    readiness_exit_rule(ctx, "R07.13")
+    ctx.floor("R07.13", 1)
     # ---------------------------------------------------------------- R07.12 an inherited edge points at the real predecessor (= C04 R04.15)
     from .c04 import inherited_edges_keep_identity_rule
     inherited_edges_keep_identity_rule(ctx, "R07.12")
